@@ -7,7 +7,9 @@ package loop
 import (
 	"errors"
 	"fmt"
+	"io"
 	"strings"
+	"syscall"
 	"testing"
 	"time"
 
@@ -276,7 +278,52 @@ func TestC02_ByteBufferTransfers(t *testing.T) {
 		if extra := sysx.ReadSome(pfd, 1<<20); len(extra) != 0 {
 			fail("peer received %d bytes beyond the %d that were written", len(extra), appended)
 		}
-		for began := time.Now(); received < peerSent || asyncR; {
+		// In a third of the cases the peer ends its stream right behind a last chunk, before the reader gets to it: the
+		// reader keeps calling AsyncReadFrom until it is told the stream ended, and by then the buffer must have taken
+		// everything the peer wrote.
+		peerEnded := false
+		if rapid.IntRange(0, 2).Draw(rt, "peerEndsStream") == 0 {
+			k := rapid.SampledFrom([]int{1, 3, 100, 700, 4096, 30000}).Draw(rt, "tail")
+			b := make([]byte, k)
+			fillStream(b, 0, 'r', peerSent)
+			n := sysx.WriteSome(pfd, b)
+			peerSent += int64(n)
+			_ = syscall.Shutdown(pfd, syscall.SHUT_WR)
+			peerEnded = true
+			log("peerWrite(%d)=%d+FIN", k, n)
+			sysx.WaitReadable(fd, 1000)
+			time.Sleep(time.Millisecond)
+			ended := false
+			for began := time.Now(); !ended; {
+				if time.Since(began) > 20*time.Second {
+					rt.Fatalf("INFRA: no end of stream 20 s after the peer shut down its side (unread=%d, received %d of %d)", sysx.Unread(fd), received, peerSent)
+				}
+				if !asyncR {
+					rb.Reserve(rapid.SampledFrom([]int{100, 4096, 70001}).Draw(rt, "endRoom"))
+					asyncR = true
+					rb.AsyncReadFrom(conn, func(err error, n int) {
+						asyncR = false
+						log("cb:AsyncReadFrom=(%v,%d)", err, n)
+						if err != nil {
+							ended = true
+							if err != io.EOF {
+								fail("AsyncReadFrom at the end of the peer's stream: %v", err)
+							}
+							return
+						}
+						took(n, "AsyncReadFrom(end)")
+					})
+				}
+				if asyncR {
+					sysx.WaitReadable(fd, 20)
+					_, _ = ioc.PollOne()
+				}
+			}
+			if received != peerSent {
+				fail("the reader was told the peer's stream ended after the buffer had taken %d of the %d bytes the peer wrote before it shut down its side", received, peerSent)
+			}
+		}
+		for began := time.Now(); !peerEnded && (received < peerSent || asyncR); {
 			if time.Since(began) > 60*time.Second {
 				rt.Fatalf("INFRA: loopback TCP delivered nothing for 60 s (unread=%d)", sysx.Unread(fd))
 			}
